@@ -6,6 +6,7 @@
    since the bucket was made); it is released at t + wait.  *)
 From Coq Require Import ZArith List.
 From Cloak Require Import Gen.Consts Model.Bucket Proofs.Bucket.
+From Cloak Require Model.PanelSplit Proofs.PanelSplit.
 Import ListNotations.
 Local Open Scope Z_scope.
 
@@ -100,3 +101,25 @@ Print Assumptions C19_not_starved_partial.
 Example C19_not_starved_inhabited :
   cumulate 0 (run_seq p1000 (binit p1000) 0 [600; 600; 1000]) = [(0, 600); (200000000, 1200); (1200000000, 2200)].
 Proof. vm_compute. reflexivity. Qed.
+
+(* "counted across all of the user's sessions and connections together" needs ONE valve per user even
+   when the user's first connections overlap: GetUser creates the valve together with the record, and
+   with activeUsersM kept from the lookup to the insertion (Model/PanelSplit.v, held = true; tied to
+   the source by the generated obligation GetUser_lookup_authenticate_insert_one_step) any number of
+   overlapping calls, whatever the user database answers and when, all get the one record - g_nrec
+   counts the records, i.e. the valves, created. *)
+Theorem C19_one_valve_per_user_under_overlap : forall thr sched s t1 t2 u r1 r2,
+  PanelSplit.all_start thr -> PanelSplit.grun true (PanelSplit.g_init thr) sched = Some s ->
+  PanelSplit.gget s t1 = PanelSplit.GDone u (Some r1) -> PanelSplit.gget s t2 = PanelSplit.GDone u (Some r2) ->
+  r1 = r2 /\ PanelSplit.g_table s u = Some r1.
+Proof. exact PanelSplit.split_one_record. Qed.
+Print Assumptions C19_one_valve_per_user_under_overlap.
+
+(* without that lock two overlapping first connections get two records = two valves (seeded change
+   C19_m2), and C19_refuted_unshared above says what two valves release *)
+Theorem C19_two_valves_when_unlocked :
+  exists s, PanelSplit.grun false (PanelSplit.g_init [PanelSplit.GStart 1%N; PanelSplit.GStart 1%N]) PanelSplit.unlocked_schedule = Some s
+  /\ PanelSplit.gget s 0 = PanelSplit.GDone 1%N (Some 0%nat) /\ PanelSplit.gget s 1 = PanelSplit.GDone 1%N (Some 1%nat)
+  /\ PanelSplit.g_nrec s = 2%nat.
+Proof. exact PanelSplit.split_unlocked_two_valves. Qed.
+Print Assumptions C19_two_valves_when_unlocked.
